@@ -82,13 +82,13 @@ structure HorzResult (α : Type) where
   deriving Repr
 
 /-- predictor/corrector of `horzdiff` for one particle. `Kh x y` is `forcing.horzdiff(x,y,z)`
-at the particle's depth, `dx` is `sample_metric`. -/
-def horzdiffXY (Kh : α → α → α) (hmin hmax dt dx : α) (ux uy x y : α) : HorzResult α :=
+at the particle's depth, `(dx, dy)` is `sample_metric` at the particle. -/
+def horzdiffXY (Kh : α → α → α) (hmin hmax dt dx dy : α) (ux uy x y : α) : HorzResult α :=
   let cd := fun xx yy => computeDiff hmin hmax (Kh xx yy)
   let dWx := (ux * 2.0 - 1.0) * sqrt (3.0 * dt) / dx
   let x1 := x + cd x y * dWx
   let x2 := x + cd x1 y * dWx
-  let dWy := (uy * 2.0 - 1.0) * sqrt (3.0 * dt) / dx
+  let dWy := (uy * 2.0 - 1.0) * sqrt (3.0 * dt) / dy
   let y1 := y + cd x2 y * dWy
   let y2 := y + cd x2 y1 * dWy
   ⟨x2, y2⟩
@@ -122,7 +122,8 @@ structure Env (α : Type) where
   wvel : α → α → α → α
   vdiff : α → α → α → α
   hdiff : α → α → α → α
-  metric : α → α → α
+  metric : α → α → α       -- first component of `grid.sample_metric` (cell size along X)
+  metricY : α → α → α      -- second component (cell size along Y)
   ingrid : α → α → Bool
 
 structure Particle (α : Type) where
@@ -161,7 +162,7 @@ def horizontal (c : Config α) (e : Env α) (d : Draws α) (x y z : α) (alive :
   match c.horz with
   | none => (x, y, z, alive)
   | some (hmin, hmax) =>
-    let r := horzdiffXY (fun xx yy => e.hdiff xx yy z) hmin hmax c.dt (e.metric x y) d.hx d.hy x y
+    let r := horzdiffXY (fun xx yy => e.hdiff xx yy z) hmin hmax c.dt (e.metric x y) (e.metricY x y) d.hx d.hy x y
     let (x', y', alive') := if e.ingrid r.x2 r.y2 then (r.x2, r.y2, alive) else (x, y, false)
     (x', y', fmin z (e.depth x' y'), alive')
 
